@@ -273,6 +273,12 @@ Proof.
       { rewrite blen_takeN. subst n. lia. }
       destruct (buf_append_inv c s m (takeN n ch) HC EC HB) as (B1&B2&B3).
       cbv zeta in B1, B2, B3.
+      destruct (dropN n ch) as [|r0 rem]; [destruct rest as [|r1 rest1]|].
+      { inversion H; subst e s'.
+        split; [exact B1|split; [exact B2|split; [reflexivity|intros X; contradiction]]]. }
+      { destruct (IH _ _ e s' B1 H) as (G1&G2&G3&G4).
+        split; [exact G1|split; [eapply crel_trans; eassumption|split; [|exact G4]]].
+        rewrite G3. reflexivity. }
       destruct (IH _ _ e s' B1 H) as (G1&G2&G3&G4).
       split; [exact G1|split; [eapply crel_trans; eassumption|split; [|exact G4]]].
       rewrite G3. reflexivity.
